@@ -91,10 +91,13 @@ def one(ctx, y, yh, x, family):
     ]
     if n >= 3:
         checks.append(('r2adj', float(M.r2(y, yh, M.R2.adjusted)), 'metrics.r2[adjusted]', None, None))
+    mag2 = float(max(np.max(np.abs(y)), np.max(np.abs(yh)), 1e-300)) ** 2 if n else 1.0
     for name, fval, site, _, sc in checks:
         q = model(name)
         ctx.corr_checked += 1
         scale = abs(q) + 1 if sc is None else sc
+        if name in ('rss', 'mse'):
+            scale = mag2 * max(n, 1)        # dimensional quantities: rounding scale is the squared magnitude of the data, not 1
         if name in ('r2', 'r2adj'):
             scale = abs(q) + 2
         if not close(fval, q, scale):
@@ -189,6 +192,14 @@ def run(ctx):
             x, fam = x * 2.0 ** -40, fam + '@xtiny'
         elif u < 0.18:
             x, fam = x * 2.0 ** 30, fam + '@xhuge'
+        u3 = rng.random()
+        if u3 < 0.08:
+            y, yh, fam = y * 2.0 ** -30, yh * 2.0 ** -30, fam + '@ytiny30'      # ~1e-9 scale: the eps guards (1e-16) are part of the definitions
+        elif u3 < 0.14:
+            y, yh, fam = y * 2.0 ** 30, yh * 2.0 ** 30, fam + '@yhuge30'
+        elif u3 < 0.22:
+            off = rng.choice([2.0 ** 20, 2.0 ** 26])
+            y, yh, fam = y + off, yh + off, fam + '@yoff'                        # large base line, small swing: R2 needs the centred sums
         one(ctx, y, yh, x, fam)
         if rng.random() < 0.35:
             # signed vectors: opposite signs at some positions, a fitted line that crosses zero while the data do not, all-negative data
